@@ -102,6 +102,49 @@ def strtypes_family(chk, tier):
     chk.validate("Trace_StrTypes", traces, inputs, shard=8, batch_extra=extra)
 
 
+from . import drive_cli as DC
+
+
+def cli_family(pid, tier, chk):
+    quick = tier == "quick"
+    plans = DC.mc_cli(chk, 2, emit=True)
+    chk.exhaustive_parts.append("MC_Cli: every plan with <=2 arguments (10 file kinds x -m/-l x 2 model names) x 4 output situations x 7 faults, "
+                                "single fault per plan (%d plans): safety, OnlyWriteAfterRender, termination" % len(plans))
+    if not quick:
+        DC.mc_cli(chk, 3, emit=False)
+    if pid == "C16":
+        # C16 is about successful runs: the fault-free plans (every split of the samples over files / lookups / -m / -l)
+        plans = [p for p in plans if p["fault"] == "none" and p["out"] != "unwritable"
+                 and all(a["kind"] in ("list", "object", "lookup") for a in p["args"])]
+    if quick:
+        chk.rng.shuffle(plans)
+        plans = plans[:260]
+    traces, inputs = DC.cli_traces(chk, plans, fmts=("json", "json", "yaml"), sub_every=8 if quick else 3)
+    chk.rules.append("%d TLC-enumerated CLI plans materialised as real files + argv and run through json_to_models.cli.main() with "
+                     "recording wrappers (file loaders, validate, set_args, generate, generate_code, open, write, print)" % len(plans))
+    chk.validate("Trace_Cli", traces, inputs, shard=40)
+
+
+from . import drive_header as DH
+
+
+def header_family(chk, tier):
+    quick = tier == "quick"
+    beh = DH.mc_header(chk, 5 if quick else 6)
+    chk.exhaustive_parts.append("MC_Header: every command text of <=%d characters over 5 classes (Safe, Minimal)" % (5 if quick else 6))
+    bad = [b for b in beh if not b["rawok"]]
+    ok = [b for b in beh if b["rawok"]]
+    chk.rng.shuffle(ok)
+    chosen = bad + ok[: (150 if quick else 3000)]
+    if quick:
+        chk.rng.shuffle(chosen)
+        chosen = chosen[:400]
+    traces, inputs = DH.header_traces(chk, chosen, 60 if quick else 600)
+    chk.rules.append("%d TLC-enumerated command texts (all that would break an unescaped header + a sample of the others) put on a real "
+                     "command line; preamble texts incl. docstrings, triple quotes, backslashes, non-ASCII, blank" % len(chosen))
+    chk.validate("Trace_Header", traces, inputs, shard=40)
+
+
 def run(pid, tier, replay=None):
     chk = Check(pid, tier)
     if pid in ("C01", "C02", "C07", "C08", "C13"):
@@ -109,9 +152,23 @@ def run(pid, tier, replay=None):
         registry_family(pid, tier, chk)
         if pid == "C01":
             module_family(pid, tier, chk)
+        if pid == "C13":
+            cases = DC.dict_option_cases(chk.rng, 150 if tier == "quick" else 2500)
+            traces, inputs = [], {}
+            for i, (samples, dkf, dkr) in enumerate(cases):
+                traces.append({"id": "dk%d" % i, "events": DC.cli_generate_events(samples, dkf, dkr)})
+                inputs["dk%d" % i] = {"samples": samples, "dkf": dkf, "dkr": dkr, "via": "command line (patterns anchored)"}
+            chk.rules.append("%d dict-option cases through the real command line (--dkf / --dkr; key sets matching fully, as prefix, partially)" % len(cases))
+            chk.validate("Trace_Infer", traces, inputs, shard=25)
         return chk.finish()
     if pid in ("C03", "C04", "C10", "C11", "C12", "C18"):
         module_family(pid, tier, chk)
+        return chk.finish()
+    if pid in ("C16", "C17"):
+        cli_family(pid, tier, chk)
+        return chk.finish()
+    if pid == "C19":
+        header_family(chk, tier)
         return chk.finish()
     if pid == "C09":
         strtypes_family(chk, tier)
